@@ -9,6 +9,10 @@ MC     : MC_Framing_{lines,prefix} exhaustive, MC_Framing_greedy negative contro
 binding: real TCPLinesTransport / UnixLinesTransport (real connect(), patched open_connection) and the
          real TCPUDSServerTransport.handle_client with an echo-like UDSServer on hand-fed
          asyncio.StreamReaders under virtual time; once per tier also real loopback TCP / unix sockets.
+         also (virtual time): a peer that emits blank / whitespace-only lines (keep-alives) around and instead of
+         messages, read directly and through UDSClient.request(), every timed read under a watchdog ("Overdue");
+         and connections to the server transport's own run() -- in-memory network, the server module's clock on
+         the virtual loop -- that stay idle for 5..61 s between requests.
          code->spec: every execution validated by Trace_LinesStream (TLC);
          spec->code: TLC-simulated design behaviours replayed step by step.
 """
@@ -137,6 +141,24 @@ def features(chunks: list[bytes], plan: Plan) -> dict[str, Any]:
         cut = "after-all"
     return {"split_inside": split_inside, "coalesced": coalesced, "wait_partial": wait_partial, "eof": cut,
             "nontrivial": split_inside or coalesced or wait_partial or cut in ("inside-line", "line-boundary")}
+
+
+def execute_all(scn: dict[str, Any]) -> list[dict[str, Any]]:
+    """Run one scenario; the idle-connection family yields one trace per connected client."""
+    fam = scn.get("fam", "")
+    if fam.startswith("blank-line-peer"):
+        rs = [L.run_noise_reader(scn)]
+        lens = [len(h) // 2 for h in scn.get("before", []) + scn.get("after", [])]
+    elif fam.startswith("idle-connection"):
+        rs = L.run_idle_server(scn)
+        lens = [len(h) // 2 for st in scn["plan"] if st[0] == "R" for h in st[2]]
+    else:
+        return [execute(scn)]
+    for r in rs:
+        r["scn"] = scn
+        r["feat"] = {"nontrivial": True, "eof": "after-all" if scn.get("eof") else "none"}
+        r["lens"] = lens
+    return rs
 
 
 def execute(scn: dict[str, Any]) -> dict[str, Any]:
@@ -338,6 +360,83 @@ def long_scenarios(tier: str, seed: int) -> list[dict[str, Any]]:
                         pol = [L.READ_TO_MS]
                     out.append({**base, "fam": "burst", "plan": [list(op) for op in plan], "policy": pol,
                                 "lead": "reader" if r % 2 else "feeder"})
+    return out
+
+
+NOISE_LINES = ["0a", "0d0a", "200a"]  # non-message lines a peer may emit as keep-alive: LF, CR LF, SPACE LF
+
+
+def noise_scenarios(tier: str) -> list[dict[str, Any]]:
+    """A peer (the environment) that emits blank / whitespace-only lines: more often than the read timeout for
+    longer than any bounded re-arming could explain (no message arrives meanwhile: the read must END), and short /
+    rare chatters around real messages (whatever the read reports for the blank lines, the messages arrive intact,
+    in order, one per read).  Directly through transport.read() and through UDSClient.request()."""
+    T = L.READ_TO_MS
+    m1, m2, m3 = b"\x62\xf1\x90\x0a", b"\x0a", b"\x7f\x22\x31"
+    out: list[dict[str, Any]] = []
+
+    def add(kind: str, via: str, to: int, noise: str, interval: int, count: int, before: Any = (), after: Any = (),
+            after_gap: int = 0, eof: bool = False) -> None:
+        b, a = [m.hex() for m in before], [m.hex() for m in after]
+        out.append({"fam": "blank-line-peer" + ("/uds-request" if via == "uds" else ""), "kind": kind, "via": via,
+                    "to": to, "noise": noise, "interval": interval, "count": count, "before": b, "after": a,
+                    "after_gap": after_gap, "eof": eof, "policy": [to], "src": "ref",
+                    "plan": [["B"] + b, ["N", noise, interval, count], ["G", after_gap], ["A"] + a] + ([["E"]] if eof else [])})
+
+    def long_for(to: int, interval: int) -> int:  # the chatter outlasts the watchdog of a read with timeout `to`
+        return (L.OVERDUE_WATCH + 2) * to // interval + 1
+
+    for kind in L.CLIENT_KINDS:
+        for noise in NOISE_LINES:
+            for interval in (T // 4, T // 2, T - 1):
+                n = long_for(T, interval)
+                add(kind, "read", T, noise, interval, n)                                      # nothing else, stream open
+                add(kind, "read", T, noise, interval, n, [m1], [m2, m3], interval // 2, True)  # messages around it
+                add(kind, "read", T, noise, interval, n, (), [m1], 3 * T)                      # then silence, then a message
+            for interval in (100, T, T + T // 2, 3 * T):                                      # a few lines, also rare ones
+                for count in (1, 3):
+                    add(kind, "read", T, noise, interval, count, [m1], [m2], 10, True)
+                    add(kind, "read", 0, noise, interval, count, (), [m2, m1], 0, True)
+        for to in (300, 5000) if tier == "quick" else (100, 300, 2000, 5000, 30000):
+            add(kind, "read", to, "0a", to // 3, long_for(to, to // 3), (), [m1], 0, True)
+        # one UDS request over the transport: first read with the request's timeout, 0.5 s polls after a ResponsePending
+        pending, final = b"\x7f\x3e\x78", b"\x7e\x00"
+        for noise in NOISE_LINES[:2]:
+            for interval in (250, 400):
+                n = long_for(T, interval)
+                add(kind, "uds", T, noise, interval, n)
+                add(kind, "uds", T, noise, interval, n, [pending])
+                add(kind, "uds", T, noise, interval, 3, [pending], [final], 100)
+                add(kind, "uds", T, noise, interval, 2, (), [final], 100)
+    return out
+
+
+def idle_scenarios(tier: str) -> list[dict[str, Any]]:
+    """Connections to the virtual ECU's line server (its own run()) that stay open and idle for a while between
+    requests: every request still gets exactly its own reply, one per read; nothing else shows up at the client."""
+    out: list[dict[str, Any]] = []
+
+    def q(i: int, who: int = 0) -> str:
+        return (bytes([0x22 if i % 2 else 0x31, 0xA0 + who, i]) + bytes([i] * (i % 4))).hex()
+
+    def add(kind: str, steps: list[list[Any]]) -> None:
+        out.append({"fam": "idle-connection", "kind": kind, "plan": steps, "policy": [5000], "src": "server:run"})
+
+    gaps = (5000, 11000, 25000, 61000)
+    for kind in L.CLIENT_KINDS:
+        for g in gaps:
+            add(kind, [["R", "A", [q(0)]], ["I", g], ["R", "A", [q(1)]], ["I", g], ["R", "A", [q(2), q(3), q(4)]]])
+            add(kind, [["R", "A", [q(0), q(1), q(2)]], ["I", g], ["R", "A", [q(3), q(4), q(5)]], ["P", "A", 500]])
+            add(kind, [["R", "A", [q(0)]], ["I", g], ["P", "A", 500], ["R", "A", [q(1)]]])
+            add(kind, [["I", g], ["R", "A", [q(0)]], ["R", "A", [q(1)]]])                    # idle right after connecting
+        add(kind, [["R", "A", [q(0)]], ["I", 5000], ["R", "A", [q(1)]], ["I", 11000], ["R", "A", [q(2)]], ["I", 25000],
+                   ["R", "A", [q(3)]], ["I", 61000], ["R", "A", [q(4)]]])
+        # a second tester connected at the same time: both pause / one sits idle while the other one keeps going
+        add(kind, [["R", "A", [q(0)]], ["R", "B", [q(0, 1)]], ["I", 25000], ["R", "B", [q(1, 1)]], ["R", "A", [q(1)]]])
+        busy: list[list[Any]] = [["R", "B", [q(0, 1)]]]
+        for i in range(8):
+            busy += [["R", "A", [q(i)]], ["I", 4000]]
+        add(kind, busy + [["R", "B", [q(1, 1)]], ["P", "A", 500]])
     return out
 
 
@@ -699,6 +798,30 @@ def self_tests(rep: Report, results: list[dict[str, Any]], verdicts: dict[int, t
             raise Machinery(f"binding self-test: corrupted trace {i + 1} got verdict {g!r} (expected {w}*)")
     if got[5] != "H/projection":
         raise Machinery(f"binding self-test: byte-level corruption not detected ({v[5]})")
+    # the clauses about non-message lines / bounded time, on canned recordings (independent of the tree under test)
+    def canned(evs: list[dict[str, Any]]) -> dict[str, Any]:
+        return {"kind": "canned", "ev": evs, "rb": [], "tab": {}, "wire": b"", "notes": {}, "outcomes": []}
+
+    T = L.READ_TO_MS
+    peer_blank = [L.E("Noise", c=1, n=1), L.E("Feed", n=1)]
+    cases = [
+        (peer_blank + [L.E("ReadBegin", to=T), L.E("ReadEnd", r="Empty")], "ok"),
+        (peer_blank + [L.E("ReadBegin", to=T), L.E("ReadEnd", r="Error")], "ok"),
+        (peer_blank + [L.E("ReadBegin", to=T), L.E("ReadEnd", r="Timeout")], "ok"),
+        (peer_blank + [L.E("ReadBegin", to=T), L.E("ReadEnd", r="Empty"), L.E("ReadBegin", to=T), L.E("ReadEnd", r="Empty")],
+         "T3/end-of-stream-reported-on-open-stream"),                       # one blank line explains one empty read
+        ([L.E("ReadBegin", to=T)] + peer_blank * 3 + [L.E("ReadEnd", r="Overdue", n=3 * T)], "ok"),
+        ([L.E("ReadBegin", to=T)] + peer_blank * 3 + [L.E("ReadEnd", r="Overdue", n=8 * T)], "T2/read-outlives-its-timeout"),
+        ([L.E("ReadBegin", to=0)] + peer_blank * 3 + [L.E("ReadEnd", r="Overdue", n=8 * T)], "ok"),
+        # a line terminator written by the sender under test outside of any message relaxes nothing
+        ([L.E("Noise", c=0, n=1), L.E("Feed", n=1), L.E("ReadBegin", to=T), L.E("ReadEnd", r="Empty")],
+         "T3/end-of-stream-reported-on-open-stream"),
+    ]
+    cv = validate([canned(evs) for evs, _ in cases], None, "self-test-canned-noise")
+    for i, (_evs, want) in enumerate(cases):
+        if cv[i][0] != want:
+            raise Machinery(f"binding self-test: canned recording {i + 1} (non-message lines / bounded time) got "
+                            f"verdict {cv[i][0]!r}, expected {want!r}")
     # mutant of the harness' own fake: a stream that loses the last byte of every segment
     scn = {"kind": pick["scn"]["kind"], "msgs": [m.hex() for m in SHORT_SETS[0]], "src": "ref"}
     contents, chunks = materialize(scn)
@@ -717,7 +840,8 @@ def self_tests(rep: Report, results: list[dict[str, Any]], verdicts: dict[int, t
     mv = validate([mut], None, "self-test-mutant")[0][0]
     if mv == "ok":
         raise Machinery("binding self-test: the lossy stream fake was accepted")
-    rep.extra["binding_selftest"] = {"corrupted_rejected": got, "lossy_fake_rejected": mv}
+    rep.extra["binding_selftest"] = {"corrupted_rejected": got, "lossy_fake_rejected": mv,
+                                     "canned_noise_and_bounded_time_cases": len(cases)}
 
 
 def drive_enumerated(rep: Report, tier: str, seed: int) -> tuple[list[dict[str, Any]], int]:
@@ -751,7 +875,10 @@ def drive_enumerated(rep: Report, tier: str, seed: int) -> tuple[list[dict[str, 
         scns.append({**base, "plan": [["F", 1000], ["Z"], ["F", nb], ["Z"], ["E"]], "policy": [0], "lead": "reader"})
     n_short = len(scns)
     scns += long_scenarios(tier, seed)
-    results = [execute(s) for s in scns]
+    # peers that emit non-message lines; connections to the server's own run() that stay idle between requests
+    scns += noise_scenarios(tier)
+    scns += idle_scenarios(tier)
+    results = [r for s in scns for r in execute_all(s)]
     rep.extra["families"] = {}
     for r in results:
         f = r["scn"]["fam"]
@@ -769,7 +896,8 @@ def run(tier: str, seed: int) -> Report:
                 "loopback/unix socket runs); distinct = distinct (reader kind, byte source, message lengths/contents, "
                 "peer plan, read policy, who starts first); non-trivial = the plan splits inside a line, or hands over "
                 "several lines in one segment, or lets time pass / a read time out while part of a line is buffered, or "
-                "closes before the end of the stream (computed from the plan, never from the outcome)")
+                "closes before the end of the stream, or the peer emits non-message (blank) lines, or the connection to "
+                "the server's own run() stays idle between requests (computed from the plan, never from the outcome)")
     rep.assumptions = [
         "virtual-time loop: asyncio timers fire exactly, FIFO ready queue; the in-memory stream fakes are compared "
         "with kernel TCP/unix sockets once per run (disagreement = machinery failure)",
@@ -777,7 +905,13 @@ def run(tier: str, seed: int) -> Report:
         "end-of-stream by construction of the format and is outside the property",
         "server loop: 'delivered' = the bytes handed to handle_request; the end of the loop is its report of end-of-stream",
         "where the statement is silent the contract accepts (counted under 'unspecified'): an error instead of an empty "
-        "read when the stream ends inside a message, a timeout although the message became complete during the wait",
+        "read when the stream ends inside a message, a timeout although the message became complete during the wait, "
+        "whatever a read reports for a blank / whitespace-only line sent by a peer that is not gallia code (skipped, "
+        "empty read, error)",
+        "bounded time (T2 presupposes that timed reads time out): a read(timeout=T) still pending 4 x T after it began "
+        "has outlived its timeout; observed under virtual time only, with a watchdog of 8 x T",
+        "idle-connection runs: the clock the server module reads (gallia.services.uds.server.time) follows the virtual "
+        "loop; asyncio.start_server / start_unix_server / open_connection are in-memory in the harness process",
     ]
     # ---- 1. model checking (the five TLC runs are independent: run them side by side)
     jobs = {
@@ -862,7 +996,8 @@ def run(tier: str, seed: int) -> Report:
     rep.extra["stage_seconds"] = stage_t
     rep.traces = len(results)
     rep.evaluations = len(results)
-    unspecified = {"error_at_end_of_stream_inside_message": 0, "hang_on_open_stream": 0}
+    unspecified = {"error_at_end_of_stream_inside_message": 0, "hang_on_open_stream": 0,
+                   "report_for_a_non_message_line_of_the_peer": {}}
     notes: dict[str, int] = {}
     byte_checked = 0
     for i, r in enumerate(results):
@@ -891,7 +1026,15 @@ def run(tier: str, seed: int) -> Report:
             drift += 1
             rep.drift.append({"what": "spec->code: " + d, "scenario": r["scn"]})
         outs = r["outcomes"]
-        if any(x[0] == "Error" for x in outs):
+        if r["scn"].get("fam", "").startswith("blank-line-peer"):
+            # accepted by TLC: every Empty / Error on the open stream here answered a blank line of the peer
+            opened = [e for e in r["ev"] if e["e"] in ("ReadEnd", "Close")]
+            cut = next((j for j, e in enumerate(opened) if e["e"] == "Close"), len(opened))
+            tally = unspecified["report_for_a_non_message_line_of_the_peer"]
+            kinds = {e["r"] for e in opened[:cut] if e["r"] in ("Empty", "Error")} or {"skipped"}
+            for k in kinds:
+                tally[k] = tally.get(k, 0) + 1
+        elif any(x[0] == "Error" for x in outs):
             unspecified["error_at_end_of_stream_inside_message"] += 1
         if outs and outs[-1][0] == "Hang":
             unspecified["hang_on_open_stream"] += 1
@@ -931,7 +1074,7 @@ def replay(path: str) -> int:
                 or "policy" not in scn:
             print(f"replay: scenario family {scn.get('fam')} is replayed by re-running the tier; skipped")
             continue
-        runs.append(execute(scn))
+        runs.extend(execute_all(scn))
     verdicts = validate(runs, None, "replay") if runs else {}
     bad = 0
     for i, r in enumerate(runs):
